@@ -27,9 +27,15 @@ def obligations(tier):
                 defines=["VP_N=%d" % n, "KF_EXCLUDE_REQLINE_WS"], unwind=n + 2, instrument=CUT_URI,
                 timeout=600, mem_gb=8, native=False,
                 desc="request line <= %d symbolic bytes" % n)]
-    nf, v = (2, 8) if tier == "quick" else (3, 10)
-    obs.append(dict(name="framing", harness="C23_framing.c", entry="harness_framing",
-                defines=["VP_NF=%d" % nf, "VP_V=%d" % v] + ["KF_EXCLUDE_" + k for k in KF_FRAMING],
-                unwind=max(v + 3, 20), instrument=CUT_BODY, timeout=600, mem_gb=8, native=False,
-                desc="framing decision, <=%d fields, values <=%d bytes" % (nf, v)))
+    v = 8 if tier == "quick" else 12
+    K = {"CL": 1, "TE": 2, "cl": 3, "te": 4, "CO": 5, "XY": 6}
+    shapes = [[], ["CL"], ["TE"], ["CO"], ["CL", "cl"], ["CL", "TE"], ["te", "CL"], ["TE", "TE"], ["CO", "CL"], ["TE", "CO"]]
+    if tier != "quick":
+        shapes += [["CL", "CL", "CL"], ["TE", "CL", "CL"], ["CL", "TE", "TE"], ["XY", "CL", "TE"], ["TE", "XY", "TE"], ["CL", "XY", "CL"]]
+    for sh in shapes:
+        ks = [K[x] for x in sh] + [0, 0, 0]
+        obs.append(dict(name="framing_" + ("_".join(sh) or "none"), harness="C23_framing.c", entry="harness_framing",
+                    defines=["VP_V=%d" % v, "VP_K0=%d" % ks[0], "VP_K1=%d" % ks[1], "VP_K2=%d" % ks[2]] + ["KF_EXCLUDE_" + k for k in KF_FRAMING],
+                    unwind=max(v + 3, 20), instrument=CUT_BODY, timeout=600, mem_gb=6, native=False,
+                    desc="framing decision for header fields [%s], values <=%d symbolic bytes, all methods" % (", ".join(sh), v)))
     return obs
